@@ -616,10 +616,14 @@ where
                 if response.is_transmit_request() {
                     let (tx_config, _fcnt_up) =
                         mac.multicast_setup_send::<G, N>(rng, radio_buffer)?;
-                    radio
-                        .tx(tx_config, radio_buffer.as_ref_for_read())
-                        .await
-                        .map_err(Error::Radio)?;
+                    let tx_result = radio.tx(tx_config, radio_buffer.as_ref_for_read()).await;
+                    // The answer has been handed to the radio under the current uplink counter:
+                    // the counter is spent (no RX windows follow, so nothing else advances it),
+                    // whether or not the radio completed the transmission.
+                    if let mac::Response::SessionExpired = mac.rx2_complete() {
+                        return Ok(Some(mac::Response::SessionExpired));
+                    }
+                    tx_result.map_err(Error::Radio)?;
                     if let Some(rx_config) = rx_config {
                         radio.setup_rx(rx_config).await.map_err(Error::Radio)?;
                     }
